@@ -424,8 +424,9 @@ class WARCRecorder(object):
             self._log_handler.close()
             self._log_handler = None
 
-            if self._params.move_to is not None:
-                self._move_file_to_dest_dir(self._warc_filename)
+        # The last WARC file is moved with or without a log record in it.
+        if self._params.move_to is not None:
+            self._move_file_to_dest_dir(self._warc_filename)
 
         if self._cdx_filename and self._params.move_to is not None:
             self._move_file_to_dest_dir(self._cdx_filename)
